@@ -275,13 +275,16 @@ def rule_exact(E, R):
     S = sem.Sem(E, hi)
     sites = S.sites()
     tw = [x.node for x in sites if x.node.get("k") == "Call" and norm(x.node.get("callee", "")) == "lex::take_while"]
-    pred_ok = False
-    if len(tw) == 1:
-        clo = closure_of(tw[0]["args"][2])
+    # every segment is scanned with the same class test (one scanning call in a loop, or one before and one inside it)
+    pred_ok = bool(tw)
+    for t_ in tw:
+        clo = closure_of(t_["args"][2]) if len(t_.get("args", [])) > 2 else None
+        one = False
         if clo:
             cs = [norm(c.get("callee", "")) for c in exprs(clo["body"], ("Call", "MethodCall"))]
             lits = [lit_value(x) for x in exprs(clo["body"], ("Lit", "Path")) if lit_value(x) is not None]
-            pred_ok = cs == ["core::char::methods::{impl char}::is_ascii_alphanumeric"] and lits == ["_"] and binops(clo["body"]).count("Or") == 1
+            one = cs == ["core::char::methods::{impl char}::is_ascii_alphanumeric"] and lits == ["_"] and binops(clo["body"]).count("Or") == 1
+        pred_ok = pred_ok and one
     R.check(pred_ok, rule, fi, "an identifier segment is [A-Za-z0-9_]+", where=hi["span"])
     dots = [x for x in sites if x.node.get("k") == "Call" and norm(x.node.get("callee", "")) == "lex::expect" and lit_value(x.node["args"][1]) == "."]
     R.check(len(dots) == 1, rule, fi, "segments are joined by `.`", where=hi["span"])
